@@ -348,6 +348,22 @@ def gen_attachack(rng, n):
     return out
 
 
+def gen_round10(rng, thorough):
+    """(a) an end on a real loopback TCP connection whose stream has a transforming (XOR) reader/writer layer;
+    (b) both directions busy under a low bandwidth limit: the bridge must stay up (quick: 0.4 s look, then the case ends the bridge;
+    thorough: the full ~6 s pacing with complete delivery)"""
+    out = []
+    for k in range(4 if thorough else 2):
+        out.append({"mode": "tcplayer", "limit": 0,
+                    "r0": [dict(rand_data(rng, rng.choice([5, 900, 20000])), e=0)], "r1": [dict(rand_data(rng, rng.choice([3, 700])), e=0)]})
+    out.append({"mode": "free", "limit": 4096, "stay_ms": 400, "w0": [], "w1": [], "end0": "hold", "end1": "hold", "sched": [],
+                "wrap0": False, "wrap1": False, "r0": [{"n": 16384, "fill": 1, "e": 0}], "r1": [{"n": 16384, "fill": 2, "e": 0}]})
+    if thorough:
+        out.append({"mode": "free", "limit": 4096, "w0": [], "w1": [], "end0": "hold", "end1": "hold", "sched": [], "wrap0": False, "wrap1": False,
+                    "r0": [{"n": 16384, "fill": 1, "e": 0}], "r1": [{"n": 16384, "fill": 2, "e": 0}]})
+    return out
+
+
 def stall_deterministic(c):
     """the direction that ends the tunnel has flushed >= 1 byte into its counter before it calls Close, so the final report
     made by Close's clean handler is due and parks in the stalled call"""
@@ -524,6 +540,7 @@ def run(ctx, only_cases=None):
         cases += gen_stall_midstream(rng, 4 if thorough else 1)
         cases += gen_stall_routing(rng, 12 if thorough else 3)
         cases += gen_attachack(rng, 16 if thorough else 4)
+        cases += gen_round10(rng, thorough)
         if thorough:   # real loopback TCP, real 6.5 s pause of the remaining direction after the first one half-closed
             cases.append({"mode": "relay", "relay": "bidir", "flow": "reqresp", "fail_end": 0, "tcp": True, "delay_ms": 6500})
     # the start race can kill the harness process (nil dereference inside a goroutine of Bridge.Start): own process
@@ -634,6 +651,12 @@ def run(ctx, only_cases=None):
             dist["early_eof_other_direction_live"] += c.get("flow") == "reqresp"
             dist["bytes_through_real_code"] += o.get("len0", 0) + o.get("len1", 0)
             if o.get("returned"):
+                nontrivial.add(h)
+            continue
+        if m == "tcplayer":
+            dist["tcp_end_with_transforming_stream_layer"] = dist.get("tcp_end_with_transforming_stream_layer", 0) + 1
+            dist["bytes_through_real_code"] += o.get("len0", 0) + o.get("len1", 0)
+            if o.get("start_returned") and o.get("len0", 0) > 0:
                 nontrivial.add(h)
             continue
         if m == "attachack":
